@@ -221,3 +221,19 @@ Print Assumptions C04u_decider_sound.
 Theorem C04_decider_complete : forall i o, C04_holds i o -> check_C04 i o = true.
 Proof. exact check_C04_complete. Qed.
 Print Assumptions C04_decider_complete.
+
+(* a query through the context (or on the connection) between configure() and begin_transaction() autobegins a
+   transaction on the connection but does not change what Alembic does: _in_external_transaction is fixed when the
+   MigrationContext is constructed *)
+Theorem C04_query_irrelevant : forall q i, txn_run_q q i = txn_run i.
+Proof. exact query_irrelevant_thm. Qed.
+Print Assumptions C04_query_irrelevant.
+
+(* several databases configured one after the other through ONE EnvironmentContext: the run on database k is the run of
+   call k alone, under call k's transaction_per_migration and the last explicit transactional_ddl given up to call k *)
+Theorem C04_multi_db : forall dflt calls prev k c, nth_error calls k = Some c ->
+  nth_error (multi_run dflt prev calls) k =
+  Some (txn_run_g (with_tddl (uc_in c)
+          (match fold_left acc_opt (map uc_tddl (firstn (S k) calls)) prev with Some b => b | None => dflt end))).
+Proof. exact multi_run_nth. Qed.
+Print Assumptions C04_multi_db.
